@@ -344,6 +344,10 @@ def gen_script(rnd):
     s = ["resume:%d:%d" % rnd.choice([(1, 1), (1, 1), (5, 8), (12, 3), (2, 2), (40, 41)]), "logon"]
     for _ in range(rnd.randrange(0, 7)):
         s.append(rnd.choice(["app:I", "app:A", "app:I", "app:A", "testreq:I", "testreq:A", "hb:I"]))
+    if rnd.random() < 0.3:
+        # the test author hands the helper a report the dictionary refuses (the helper then has a schema attached): refused, and the
+        # exchange around it is what it would have been without the attempt
+        s.insert(rnd.randrange(2, len(s) + 1), "badreply:A")
     s.append(rnd.choice(["logout:I", "logout:A", "none"]))
     return s
 
@@ -366,7 +370,7 @@ async def run_with_helper(clock, script):
         j.set_seq_num(j.create_or_load("ACCEPTOR", "INITIATOR"), next_num_out=nout, next_num_in=nin)
     I = E.new_endpoint("generic", "INITIATOR", "ACCEPTOR", j, hb=30, name="I")
     I._connection_state = CS.NETWORK_CONN_ESTABLISHED
-    ft = FIXTester(None, connection=I)
+    ft = FIXTester(refs()[0] if "badreply:A" in script else None, connection=I)
     tap = []
     inner = I._socket_writer.write.side_effect
 
@@ -386,6 +390,13 @@ async def run_with_helper(clock, script):
             await ft.process_msg_acceptor()
         elif st == "app:A":
             await ft.reply(FIXMessage("8", {11: f"a{n}", 17: f"e{n}", 37: "O", 150: "0", 39: "0", 54: "1", 55: "X", 14: 0, 151: 1, 6: 0}))
+        elif st == "badreply:A":
+            from asyncfix.errors import FIXMessageError
+            try:
+                await ft.reply(FIXMessage("8", {11: f"bad{n}", 17: f"e{n}", 150: "not-an-exec-type"}))
+                ft.vf_bad_reply_accepted = True
+            except FIXMessageError:
+                pass
         elif st == "testreq:I":
             await I.send_test_req()
             await ft.process_msg_acceptor()
